@@ -331,6 +331,132 @@ func runC09(w *World, r *Report) {
 
 	shareRule(w, r, "C09.task-published-after-its-result", "the executor records a node's panic in the task before it hands the task back to the run loop (one deferred function, or the hand-over registered first): the loop goroutine must not read err / output of a task that is still being written", 2, "C03", "C03.push-on-every-exit")
 
+	r.Rule("C09.handler-state-own-run-only", "a callback handler is inherited through the context by every component of its kind that starts below the run it was given to — a compiled graph run by a tool, the agent's graph nested in a parent graph — so a handler method with state of its own (it stores into a receiver field, closes a channel or an object held there) does that only under a test of something read from the context it is handed: otherwise a nested run's start and end are taken for the run's own", 3)
+	{
+		isCtx := func(t types.Type) bool {
+			n := namedOf(t)
+			return n != nil && n.Obj().Pkg() != nil && n.Obj().Pkg().Path() == "context" && n.Obj().Name() == "Context"
+		}
+		isHandlerSig := func(f *ssa.Function) bool {
+			sig := f.Signature
+			if sig.Recv() == nil || sig.Params().Len() != 3 || sig.Results().Len() != 1 {
+				return false
+			}
+			if !isCtx(sig.Params().At(0).Type()) || !isCtx(sig.Results().At(0).Type()) {
+				return false
+			}
+			n := namedOf(sig.Params().At(1).Type())
+			return n != nil && n.Obj().Name() == "RunInfo"
+		}
+		// readsContext: the function calls Value on a context (at most one module callee deep)
+		var readsContext func(f *ssa.Function, d int) bool
+		readsContext = func(f *ssa.Function, d int) bool {
+			found := false
+			instrs(f, func(in ssa.Instruction) {
+				c, ok := in.(ssa.CallInstruction)
+				if !ok || found {
+					return
+				}
+				if c.Common().IsInvoke() && c.Common().Method.Name() == "Value" && isCtx(c.Common().Value.Type()) {
+					found = true
+					return
+				}
+				if sc := staticCallee(c); sc != nil && w.inRepo(sc) && d < 2 && readsContext(sc, d+1) {
+					found = true
+				}
+			})
+			return found
+		}
+		dependsOnContextRead := func(cond ssa.Value) bool {
+			found := false
+			seen := map[ssa.Value]bool{}
+			var visit func(v ssa.Value, d int)
+			visit = func(v ssa.Value, d int) {
+				if v == nil || d > 10 || found || seen[v] {
+					return
+				}
+				seen[v] = true
+				if c, ok := v.(*ssa.Call); ok {
+					hasCtx := false
+					for _, a := range c.Call.Args {
+						if isCtx(a.Type()) {
+							hasCtx = true
+						}
+					}
+					if c.Call.IsInvoke() && c.Call.Method.Name() == "Value" && isCtx(c.Call.Value.Type()) {
+						found = true
+						return
+					}
+					if sc := staticCallee(c); sc != nil && w.inRepo(sc) && hasCtx && readsContext(sc, 0) {
+						found = true
+						return
+					}
+				}
+				if ins, ok := v.(ssa.Instruction); ok {
+					for _, op := range ins.Operands(nil) {
+						visit(*op, d+1)
+					}
+				}
+			}
+			visit(cond, 0)
+			return found
+		}
+		underContextTest := func(b *ssa.BasicBlock) bool {
+			for d := b; d != nil; d = d.Idom() {
+				gs := compoundEntryGuards(d)
+				if d == b {
+					gs = append(gs, guardsOf(b)...)
+				}
+				for _, g := range gs {
+					if dependsOnContextRead(g.cond) {
+						return true
+					}
+				}
+			}
+			return false
+		}
+		n := 0
+		for _, f := range w.RepoFuncs("flow", "utils", "callbacks", "compose", "components") {
+			if !isHandlerSig(f) || len(f.Params) == 0 {
+				continue
+			}
+			recv := f.Params[0]
+			fromRecv := func(v ssa.Value) bool {
+				fld, base := loadedField(v)
+				return fld != nil && base == ssa.Value(recv)
+			}
+			check := func(what string, in ssa.Instruction) {
+				n++
+				r.Check(underContextTest(in.Block()), "C09.handler-state-own-run-only", fmt.Sprintf("%s: %s", w.fname(f), what), in.Pos(), "under a test of what the context carries", "unconditional: every component of this kind that starts below the run fires the same handler — with react.WithMessageFuture, a tool that runs a compiled Graph with the context it was given makes the second graph start close the future's 'started' channel again ('close of closed channel', the agent run fails) and replace / close the outer run's message channel")
+			}
+			k := 0
+			for _, fw := range fieldWrites(f) {
+				if fw.base == ssa.Value(recv) {
+					k++
+					check(fmt.Sprintf("store #%d into receiver field %s", k, fw.field.Name()), fw.in)
+				}
+			}
+			k = 0
+			instrs(f, func(in ssa.Instruction) {
+				c, ok := in.(*ssa.Call)
+				if !ok {
+					return
+				}
+				if isBuiltin(c, "close") && fromRecv(c.Call.Args[0]) {
+					k++
+					check(fmt.Sprintf("close #%d of a channel held in the receiver", k), in)
+					return
+				}
+				if sc := staticCallee(c); sc != nil && sc.Name() == "Close" && sc.Signature.Recv() != nil && len(c.Call.Args) > 0 && fromRecv(c.Call.Args[0]) {
+					k++
+					check(fmt.Sprintf("Close #%d of an object held in the receiver", k), in)
+				}
+			})
+		}
+		if n == 0 {
+			r.Info("C09.handler-state-own-run-only", "no callback handler method of the module keeps state of its own", token.NoPos, "nothing to decide")
+		}
+	}
 	r.Rule("C09.reslice-append", "no append onto a re-slice (x[:k]) of a parameter slice or of a slice held in a field of a shared object, except the owner's delete-in-place stored back into the same field", 1)
 	ruleResliceAppend(w, r, "C09.reslice-append", "compose", "schema", "internal", "flow", "callbacks", "components", "utils")
 
